@@ -32,7 +32,12 @@ All randomness comes from the `random.Random` passed in.
 """
 
 PIECE = ";;;---"
-HIST_PROLOGUE = """(define fuses %d)
+# (set! gN #f): a global that is never assigned in the evaluation that defines it is taken for a constant there and
+# inlined into the procedures of that evaluation (a finding of another property); the slots are assigned by later pieces
+HIST_PROLOGUE = """(set! g1 #f)
+(set! g2 #f)
+(set! g3 #f)
+(define fuses %d)
 (define (fuse!) (if (> fuses 0) (begin (set! fuses (- fuses 1)) (error "boom")) 0))"""
 
 SLOTS = ["g1", "g2", "g3"]
@@ -369,6 +374,7 @@ def gen_random(rng, size, feats, handler_errors=False, top_level_invoke=True, to
         fc.vars = ["n", "acc"]
         lines.append("(define (%s n acc) (if (<= n 0) acc (%s (- n 1) %s)))" % (name, name, gen(fc, size - 1)))
         c.feat("tail-recursive-helper")
+    nre_helpers = c.nre[0]       # a helper that invokes a stored continuation: no form that calls it may be a definition
     if history:
         lines.append(HIST_PROLOGUE % rng.choice([1, 1, 2]))
         c.feat("history")
@@ -395,7 +401,8 @@ def gen_random(rng, size, feats, handler_errors=False, top_level_invoke=True, to
         e = gen(fcx, size)
         # a form that invokes a stored continuation may never finish (control goes on after ANOTHER form): its
         # value must not be needed later, so it is not a definition
-        if rng.random() < 0.3 and c.nre[0] == nre0:
+        # (nor in a history: a form that dies leaves the name undefined for the later pieces)
+        if rng.random() < 0.3 and c.nre[0] == nre0 and nre_helpers == 0 and not history:
             v = c.fresh("v")
             lines.append("(define %s %s)" % (v, e))
             c.vars.append(v)
